@@ -129,7 +129,9 @@ func NewStdinReadStorage(reader io.Reader) (*stdinReadStorage, []cid.Cid, error)
 		lk:     &lk,
 		cond:   sync.NewCond(&lk),
 	}
-	rdr, err := car.NewBlockReader(reader)
+	// Standard input is usually a pipe: hide the *os.File's Seek method, which fails there and
+	// which the block reader would otherwise use to skip to the payload of a CARv2.
+	rdr, err := car.NewBlockReader(struct{ io.Reader }{reader})
 	if err != nil {
 		return nil, nil, err
 	}
